@@ -11,7 +11,8 @@ PROP = "C19"
 LEVEL = "exploration"
 RULE = (
     "every directed graph on <= 4 vertices, self-loops included (2^(n^2) graphs per n, 66 067 in total), given as a "
-    "dict vertex -> successor set; every loop-free digraph on 5 vertices with <= 5 edges (quick) / all 2^20 of them (thorough); plus the "
+    "dict vertex -> successor set; every loop-free digraph on 5 vertices with <= 5 edges (quick) / all 2^20 of them (thorough); every "
+    "loop-free digraph on 6 and 7 vertices with <= 2 (thorough <= 3) edges (up to 5040 orderings each); plus the "
     "precedence graphs built by the ordered solver for every tuple of <= 3 ordered leaf syntenies over 3 families "
     "(thorough: <= 4 leaves). toposort_all must equal the permutation filter as a multiset (no repetition, none if "
     "cyclic), toposort must return a member iff the set is non-empty. Vertex names: ints for the raw graphs, strings for "
@@ -34,6 +35,13 @@ def plan(tier, seed):
     else:
         for ne in range(0, 6):
             out.append({"slice": "digraphs5-loopfree<=5edges", "mode": "graph5", "edges": ne})
+    # sparse graphs on 6 and 7 vertices: the many-orderings end of the domain (720 ... 5040 orderings per graph)
+    for n in (6, 7):
+        for ne in range(0, (3 if tier == "quick" else 4)):
+            npairs = n * (n - 1)
+            k = 1 if ne < 2 else (8 if ne == 2 else 64)
+            for part in range(k):
+                out.append({"slice": "digraphs6..7-sparse", "mode": "sparse", "n": n, "edges": ne, "part": [part, k]})
     for nleaves in range(1, (3 if tier == "quick" else 4) + 1):
         out.append({"slice": "precedence-graphs", "mode": "prec", "nleaves": nleaves})
     return out
@@ -132,6 +140,17 @@ def run_shard(shard, tier, seed):
             for a, b in edges:
                 succ[a].append(b)
             handle(V, succ, "digraph5")
+    elif shard["mode"] == "sparse":
+        V = list(range(shard["n"]))
+        pairs = [(a, b) for a in V for b in V if a != b]
+        part, k = shard["part"]
+        for i, edges in enumerate(itertools.combinations(pairs, shard["edges"])):
+            if i % k != part:
+                continue
+            succ = {v: [] for v in V}
+            for a, b in edges:
+                succ[a].append(b)
+            handle(V, succ, "digraph_sparse")
     elif shard["mode"] == "graph5bits":
         V = list(range(5))
         pairs = [(a, b) for a in V for b in V if a != b]
